@@ -66,10 +66,12 @@ NewEntry(sel) ==
      num |-> IF "NumAlwaysMerged" \in Quirks THEN SomeI(0) ELSE NoI,
      abs |-> NoS, merge |-> FALSE, abspath |-> FALSE]
 
-\* state of one getLinkItem call
-NewItem(dir, capsel) ==
+\* state of one getLinkItem call: the entry being filled, done["path"], the index of the next line
+\* to read, and where the loop stands ("run"; "break" = left the loop; "stop" = end of file;
+\* "crash" = an exception escaped)
+NewItem(dir, capsel, i) ==
     [e |-> NewEntry(IF capsel.s THEN capsel.v ELSE dir.sel), done |-> capsel.s,
-     nextstep |-> "continue", pos |-> 0, crash |-> FALSE, base |-> Base(dir), cap |-> capsel.s]
+     status |-> "run", pos |-> i, base |-> Base(dir)]
 
 \* the while-loop of the Abstract= branch; pos = index of the next unread line
 RECURSIVE AbsRun(_, _, _, _)
@@ -78,43 +80,49 @@ AbsRun(lines, pos, cur, acc) ==
     THEN AbsRun(lines, pos + 1, IF pos <= Len(lines) THEN Strip(lines[pos]) ELSE "", acc \o DropLast(cur) \o "\n")
     ELSE [text |-> acc \o cur, pos |-> pos]
 
-\* getLinkItem: one step per line read; returns the item state with pos = next unread line
-RECURSIVE GLI(_, _, _)
-GLI(lines, i, st) ==
-    IF i > Len(lines) THEN [st EXCEPT !.nextstep = "stop", !.pos = i]          \* readline() = "" at EOF
+\* ONE iteration of the `while 1:` loop of getLinkItem: reads line st.pos (the Abstract= branch reads
+\* its continuation lines too).  This is the transition relation of the block parser; MC_C08_block
+\* explores it step by step, GLI below runs it to the end of the block.
+GLIStep(lines, st) ==
+    LET i == st.pos
+        next == [st EXCEPT !.pos = i + 1]
+    IN
+    IF i > Len(lines) THEN [st EXCEPT !.status = "stop"]                       \* readline() = "" at EOF
     ELSE LET line == Strip(lines[i]) IN
-    IF Len(line) = 0 THEN [st EXCEPT !.pos = i + 1]                             \* empty: break
+    IF Len(line) = 0 THEN [next EXCEPT !.status = "break"]                     \* empty: break
     ELSE IF Ch(line, 1) = "#"
-    THEN (IF st.done /\ "CommentEndsBlock" \in Quirks THEN [st EXCEPT !.pos = i + 1]   \* break
-          ELSE GLI(lines, i + 1, st))
+    THEN (IF st.done /\ "CommentEndsBlock" \in Quirks THEN [next EXCEPT !.status = "break"] ELSE next)
     ELSE IF StartsWith(line, "Type=")
-    THEN (IF Len(line) < 6 THEN [st EXCEPT !.crash = TRUE, !.pos = i + 1]      \* line[5]: IndexError
-          ELSE GLI(lines, i + 1, [st EXCEPT !.e.type = SomeS(Ch(line, 6))]))
+    THEN (IF Len(line) < 6 THEN [next EXCEPT !.status = "crash"]              \* line[5]: IndexError
+          ELSE [next EXCEPT !.e.type = SomeS(Ch(line, 6))])
     ELSE IF StartsWith(line, "Name=")
-    THEN GLI(lines, i + 1, [st EXCEPT !.e.name = SomeS(From(line, 6))])
+    THEN [next EXCEPT !.e.name = SomeS(From(line, 6))]
     ELSE IF StartsWith(line, "Path=")
     THEN (LET raw == From(line, 6)
               pathname == IF Len(raw) > 0 /\ Last1(raw) = "/" THEN DropLast(raw) ELSE raw
           IN IF Len(line) >= 7 /\ SubSeq(line, 6, 7) \in {"./", "~/"}
-             THEN GLI(lines, i + 1, [st EXCEPT !.e.sel = st.base \o "/" \o From(pathname, 3),
-                                               !.e.merge = TRUE, !.done = TRUE])
+             THEN [next EXCEPT !.e.sel = st.base \o "/" \o From(pathname, 3), !.e.merge = TRUE, !.done = TRUE]
              ELSE IF Len(pathname) > 0 /\ Ch(pathname, 1) # "/" /\ ~StartsWith(pathname, "URL:")
-             THEN GLI(lines, i + 1, [st EXCEPT !.e.sel = pathname, !.e.abspath = TRUE, !.done = TRUE])
-             ELSE GLI(lines, i + 1, [st EXCEPT !.e.sel = pathname, !.done = TRUE]))
+             THEN [next EXCEPT !.e.sel = pathname, !.e.abspath = TRUE, !.done = TRUE]
+             ELSE [next EXCEPT !.e.sel = pathname, !.done = TRUE])
     ELSE IF StartsWith(line, "Host=")
-    THEN GLI(lines, i + 1, IF From(line, 6) # "+" THEN [st EXCEPT !.e.host = SomeS(From(line, 6))] ELSE st)
+    THEN (IF From(line, 6) # "+" THEN [next EXCEPT !.e.host = SomeS(From(line, 6))] ELSE next)
     ELSE IF StartsWith(line, "Port=")
-    THEN (IF From(line, 6) = "+" THEN GLI(lines, i + 1, st)
-          ELSE IF ~IsInt(From(line, 6)) THEN [st EXCEPT !.crash = TRUE, !.pos = i + 1]   \* int(): ValueError
-          ELSE GLI(lines, i + 1, [st EXCEPT !.e.port = SomeS(From(line, 6))]))
+    THEN (IF From(line, 6) = "+" THEN next
+          ELSE IF ~IsInt(From(line, 6)) THEN [next EXCEPT !.status = "crash"]  \* int(): ValueError
+          ELSE [next EXCEPT !.e.port = SomeS(From(line, 6))])
     ELSE IF StartsWith(line, "Numb=")
-    THEN GLI(lines, i + 1, IF IsInt(From(line, 6)) THEN [st EXCEPT !.e.num = SomeI(ParseInt(From(line, 6)))] ELSE st)
+    THEN (IF IsInt(From(line, 6)) THEN [next EXCEPT !.e.num = SomeI(ParseInt(From(line, 6)))] ELSE next)
     ELSE IF StartsWith(line, "Abstract=")
     THEN (LET r == AbsRun(lines, i + 1, From(line, 10), "") IN
-          GLI(lines, r.pos, IF r.text # "" THEN [st EXCEPT !.e.abs = SomeS(r.text)] ELSE st))
+          IF r.text # "" THEN [st EXCEPT !.pos = r.pos, !.e.abs = SomeS(r.text)] ELSE [st EXCEPT !.pos = r.pos])
     ELSE IF StartsWith(line, "Admin=") \/ StartsWith(line, "URL=") \/ StartsWith(line, "TTL=")
-    THEN GLI(lines, i + 1, st)
-    ELSE [st EXCEPT !.pos = i + 1]                                              \* anything else: break
+    THEN next
+    ELSE [next EXCEPT !.status = "break"]                                      \* anything else: break
+
+\* getLinkItem: iterate to the end of the block
+RECURSIVE GLI(_, _)
+GLI(lines, st) == IF st.status = "run" THEN GLI(lines, GLIStep(lines, st)) ELSE st
 
 \* the tail of getLinkItem: relative paths without host and port are made absolute
 Finished(st) ==
@@ -125,10 +133,10 @@ Finished(st) ==
 \* processLinkFile: getLinkItem until "stop"
 RECURSIVE PLF(_, _, _, _, _)
 PLF(dir, lines, i, capsel, acc) ==
-    LET r == GLI(lines, i, NewItem(dir, capsel))
-        acc2 == IF r.done /\ ~r.crash THEN Append(acc, Finished(r)) ELSE acc
-    IN IF r.crash THEN [crash |-> TRUE, es |-> acc2]
-       ELSE IF r.nextstep = "stop" THEN [crash |-> FALSE, es |-> acc2]
+    LET r == GLI(lines, NewItem(dir, capsel, i))
+        acc2 == IF r.done /\ r.status # "crash" THEN Append(acc, Finished(r)) ELSE acc
+    IN IF r.status = "crash" THEN [crash |-> TRUE, es |-> acc2]
+       ELSE IF r.status = "stop" THEN [crash |-> FALSE, es |-> acc2]
        ELSE PLF(dir, lines, r.pos, capsel, acc2)
 
 LinkEntries(dir) == IF dir.lf.has THEN PLF(dir, dir.lf.lines, 1, NoS, <<>>) ELSE [crash |-> FALSE, es |-> <<>>]
